@@ -72,7 +72,16 @@ def r14_1(ctx, R):
                 if here & empties:
                     licensed = None
                     ctx.ob("R14.1", d, "wake-on-plain-empty@%s" % _site_label(d, bb), False, d.loc(bb), "self-wake on the 'queue empty' arm spins the task")
-            ctx.ob("R14.1", d, "licensed-self-wake@%s" % _site_label(d, bb), licensed is not None, d.loc(bb), "licence: %s" % licensed)
+            if licensed is None:
+                # any exit that follows a successful dequeue in this iteration leaves work behind: also a reason
+                for pbb, pt, pfn in pops:
+                    dest = place_str(pt["dest"])
+                    here = {v for (p, v) in vf.get(bb, frozenset()) if p == dest}
+                    if here & set(_payload(ctx, pt["dest"]["ty"])) and not (here & set(_empty_variants(ctx, R, pt["dest"]["ty"]))):
+                        licensed = "after-a-dequeued-child-was-polled"
+            is_task = bb in {x[0] for x in R.task_wake_sites(d)}
+            ctx.ob("R14.1", d, "licensed-self-wake@%s" % _site_label(d, bb), licensed is not None and is_task, d.loc(bb),
+                   "licence: %s; receiver is the caller's task waker: %s" % (licensed, is_task))
     ctx.floor("R14.1", "task-wake-sites", n, 2)
     # uses of Context::waker
     m = 0
